@@ -142,6 +142,26 @@ def s2(ctx):
                     g = _guarded_creation(ctx, f, n)
                     obs.append(ctx.ok(q, where(f, n), "creation `%s` (%s)" % (src(c)[:50], "guarded" if g else "propagates to its caller"),
                                       "guarded" if g else "FileExistsError propagates to the caller, which is checked"))
+    # a guard inside a loop must be per item: after the handler the loop goes on with the remaining items
+    from .common import loop_body_nodes
+    for q in order:
+        f = ctx.P.functions[q]
+        cfg = ctx.cfg(f)
+        for lp in [x for x in cfg.nodes if x.kind == "for"]:
+            body = loop_body_nodes(cfg, lp)
+            for (n, c, targets, ext) in S.calls_of(f):
+                if n.id not in body or not isinstance(c, ast.Call):
+                    continue
+                if not (F.create_local(f, n, c, ext) or any(S.effects("creation", F.create_local)[t.qualname] for t in targets)):
+                    continue
+                h = handler_catching(cfg, n, "FileExistsError")
+                if h is None:
+                    continue
+                cont = lp.id in cfg.reachable([h.entry])
+                obs.append(ctx.ob(cont, q, where(f, n), "an existing item does not stop the creation of the others",
+                                  "after `except FileExistsError` the loop continues",
+                                  "`%s` is created inside a loop, but the FileExistsError handler is outside it: the first item that already exists ends the loop "
+                                  "and the remaining ones are never created (a start-up interrupted half-way never completes)" % src(c)[:60]))
     if n_sites < 5:
         raise AnalysisError("only %d creation sites reachable from the start-up entry points (confirmed: 9)" % n_sites)
     return obs
@@ -392,4 +412,25 @@ def s7(ctx):
                           "%s.create initialises the repository without a directory creation that fails when the path exists%s: the "
                           "FileExistsError that start-up relies on to skip existing collections never comes, and an existing collection is re-initialised"
                           % (cq.split(".")[-1], " (os.makedirs(..., exist_ok=True))" if soft else "")))
+    return obs
+
+
+@rule("C18", "S8", floor=3, kind="S",
+      desc="every start-up path registers the current-user-principal path as a principal before the server serves "
+           "(the registry is in memory only, so a restart without --autocreate must register it again)")
+def s8(ctx):
+    obs = []
+    for rq in ROOTS:
+        f = ctx.func(rq)
+        cfg = ctx.cfg(f)
+        marks = [n for n in cfg.stmt_nodes() for c in n.calls() if isinstance(c.func, ast.Attribute) and c.func.attr == "_mark_as_principal"]
+        serve = [n for n in cfg.stmt_nodes() for c in n.calls() if (dotted(c.func) or "").split(".")[-1] in ("run_app", "setup", "start")
+                 and (dotted(c.func) or "").split(".")[0] in ("web", "runner", "site")]
+        targets = serve or [cfg.exit]
+        r = cfg.reachable([cfg.entry], block_nodes=marks, follow_exc=False)
+        ok = bool(marks) and not any(t.id in r for t in targets)
+        obs.append(ctx.ob(ok, rq, f.where, "principal path registered on every start-up path",
+                          "_mark_as_principal(...) precedes serving on all paths",
+                          "%s can start serving without backend._mark_as_principal(current_user_principal): after a restart without --autocreate the principal "
+                          "directory is served as a plain collection (no principal resource type, no home sets) and discovery fails" % f.short))
     return obs
